@@ -2,14 +2,18 @@
 
 Correspondence of lean/Hgxv/Model/C07.lean (tables, table-level operations incl. the batched calls, the constructor
 with lists and the attribute-level setters, expose?/preimage?/canon/content) with
-hypergraphx.readwrite.hashing.hash_hypergraph and the four container classes, plus the property's own oracle on the
-implementation: equal observed content <=> equal hash, hashing is pure."""
+hypergraphx.readwrite.hashing.hash_hypergraph and the four container classes, and of lean/Hgxv/Model/C07Heap.lean
+(metadata as objects that refer to each other: values / serialize results per object) with the real object graph of
+the metadata slots, plus the property's own oracle on the implementation: equal observed content <=> equal hash -
+whatever objects the metadata slots share -, hashing is pure and keeps nothing between calls."""
 import contextlib
 import copy
 import hashlib
 import io
 import json
+import math
 import signal
+import struct
 import warnings
 import zlib
 
@@ -29,13 +33,27 @@ RULE = ("per case: a container class (H/D/T/M), int or string node labels, weigh
         "to all four histories; plus 4-6 single-element edits of the resulting content (node, hyperedge, weight value, 1 vs 1.0, "
         "time, layer, direction, weightedness (constructor flag; flag alone with equal hypergraph metadata, also switched on "
         "by add_edges(weights=[1..]) on an unweighted object), one node / hyperedge / hypergraph metadata atom incl. ints "
-        "beyond 2**53, the order of a list inside a metadata value). Every history must show "
+        "beyond 2**53, the order of a list inside a metadata value; a whole record replaced by another record that other slots "
+        "hold already). Numbers of every magnitude as weights and metadata atoms (ints around 2**24 / 2**53 / 2**63 / 10**20 / "
+        "2**1024, floats off the 1/4 grid, tiny, huge), weight edits go to the neighbouring integer / double. OBJECT IDENTITY: "
+        "45% of the targets draw their metadata from a pool of 2-5 records built from 1-4 nested parts; every history and every "
+        "edit hands its values over fresh (deep copies) or sharing (equal values = ONE dict / list object at every depth, with "
+        "p = 100 / 70 / 40 %; mostly one fresh and one fully sharing history per case) - same content, same hash demanded; 25-60% "
+        "of the cases run 1-2 histories again with dictionaries shared freely plus whole-entry / attribute edits (an edit through "
+        "one holder shows in all), probed after EVERY call (hash moves iff the content the getters show moves) and compared "
+        "with a twin built from fresh objects out of the observed content; 30% of the cases probe one ordinary history after "
+        "every call; all objects of a case are hashed again at the end in another order. Every history must show "
         "(getters) the content its calls describe, all four the same content and the same hash. Fixed alias probes (8: class x "
-        "weighted) run first. Distinct = kind + target content + histories; non-trivial = some history took a "
-        "removal detour and the target has at least one hyperedge and one non-empty metadata")
+        "weighted) and identity probes (8) run first. Distinct = kind + target content + histories; non-trivial = some history "
+        "took a removal detour and the target has at least one hyperedge and one non-empty metadata")
 ASSUMPTIONS = [
     "node labels are all ints or all strings (mutually comparable, JSON-representable); metadata are JSON values with "
-    "string keys; weights are non-zero multiples of 1/4 (float + is exact, -0.0 never occurs)",
+    "string keys and no cycles; numbers are ints of any size and finite floats (-0.0, nan, inf never occur); the model "
+    "holds floats on the 1/4 grid below 2**200 exactly and all other floats as injective codes - weights are only added up "
+    "where Python's + is exact (ints among themselves, small numbers on the 1/4 grid)",
+    "which metadata slots hold one and the same dictionary / list object is the caller's choice (the containers store by "
+    "reference); in `share` presentations no dictionary that a later call edits in place is shared, in `free` ones nothing "
+    "is expected of the content: it is read through the getters",
     "hyperedges are duplicate-free node tuples; directed hyperedges have disjoint non-empty sides",
     "labels/layers are mapped to their rank before they reach the model (the code uses them only through ==, hash, <)",
     "C07_differ assumes json.dumps(sort_keys=True) injective on key-sorted JSON trees and SHA-256 injective on the "
@@ -82,10 +100,12 @@ def gen_value(rng, depth=0):
     if depth >= 2 or r < 0.55:
         c = rng.randrange(6)
         if c == 0:
-            if rng.random() < 0.08:
-                return rng.choice([2 ** 53 + 1, 2 ** 62 + 1, -(2 ** 63), 10 ** 20])   # not exact as floats
+            if rng.random() < 0.1:
+                return rng.choice(BIG_INTS)                                            # not exact as floats
             return rng.randint(-3, 9)
         if c == 1:
+            if rng.random() < 0.12:
+                return rng.choice(ODD_FLOATS) * rng.choice([1, 1, -1])     # off the 1/4 grid, huge, tiny
             return rng.randint(-8, 20) / 4
         if c == 2:
             return rng.choice(SVALS)
@@ -106,6 +126,38 @@ def gen_dict(rng, depth=0, p_empty=0.3):
     return {k: gen_value(rng, depth + 1) for k in ks}
 
 
+# floats that are no small multiple of 1/4: every bit of the double matters (json.dumps writes repr, which is injective)
+ODD_FLOATS = [0.1, 0.30000000000000004, 0.3, 1 / 3, 1e-300, 5e-324, 1.0000000000000002, 123456789.12345679, 2.0 ** 53,
+              2.0 ** 53 + 2, 2.0 ** 63, 1e22, 1e300, 1.7976931348623157e308, 16777217.0, 0.1 + 2 ** 20]
+BIG_INTS = [2 ** 53, 2 ** 53 + 1, 2 ** 53 + 2, 2 ** 63 - 1, 2 ** 63, 2 ** 64 + 3, 10 ** 20, 10 ** 20 + 1, 16777217,
+            2 ** 31, -(2 ** 53) - 1, -(2 ** 63), 2 ** 1024 + 1]
+CODE = 2 ** 210          # above every on-grid number of quarters (< 2**202)
+
+
+def on_grid(v):
+    """float that the model holds exactly as a number of quarters"""
+    return abs(v) < 2.0 ** 200 and v * 4 == int(v * 4)
+
+
+def float_code(v):
+    """injective integer code of a float off the grid (the model only stores and prints such numbers)"""
+    a = CODE + int.from_bytes(struct.pack(">d", abs(v)), "big")
+    return -a if v < 0 else a
+
+
+def float_decode(n):
+    v = struct.unpack(">d", (abs(n) - CODE).to_bytes(8, "big"))[0]
+    return -v if n < 0 else v
+
+
+def neighbour(v, rng):
+    """the next double above / below"""
+    w = math.nextafter(v, math.inf if rng.random() < 0.5 else -math.inf)
+    if w in (math.inf, -math.inf) or w == 0:
+        w = math.nextafter(v, v / 2)
+    return w
+
+
 def wire(v):
     """JSON value -> wire text of lean/Driver/C07.lean (dict order kept)"""
     if v is None:
@@ -117,10 +169,11 @@ def wire(v):
     if isinstance(v, int):
         return "i%d" % v
     if isinstance(v, float):
-        q = v * 4
-        if q != int(q):
-            raise ValueError("float not a multiple of 1/4: %r" % (v,))
-        return "q%d" % int(q)
+        if v != v or v in (math.inf, -math.inf):
+            raise ValueError("not a finite float: %r" % (v,))
+        if on_grid(v):
+            return "q%d" % int(v * 4)
+        return "q%d" % float_code(v)
     if isinstance(v, str):
         if not all(c.isalnum() and c.isascii() or c == "_" for c in v):
             raise ValueError("string outside the wire alphabet: %r" % (v,))
@@ -170,6 +223,8 @@ def unwire(s):
             while pos < len(s) and (s[pos].isdigit() or s[pos] == "-"):
                 pos += 1
             n = int(s[a:pos])
+            if c == "q" and abs(n) >= CODE:
+                return float_decode(n)
             return n if c == "i" else n / 4
         if c == "s":
             return word()
@@ -317,10 +372,127 @@ def opt_kw(op, **kw):
     return kw
 
 
-def make(kind, weighted, user_hm):
+def covers(kind, big, small):
+    """the hyperedge `small` can come out of `big` by remove_node(keep_edges=True) calls (or is `big`)"""
+    if kind == "H":
+        return set(small) <= set(big)
+    if kind == "D":
+        return set(small[0]) <= set(big[0]) and set(small[1]) <= set(big[1])
+    if kind == "T":
+        return small[0] == big[0] and set(small[1]) <= set(big[1])
+    return small[1] == big[1] and set(small[0]) <= set(big[0])
+
+
+def reaches(v, target):
+    """is the object `target` the value v or inside it (by identity)"""
+    if v is target:
+        return True
+    if isinstance(v, dict):
+        return any(reaches(x, target) for x in v.values())
+    if isinstance(v, list):
+        return any(reaches(x, target) for x in v)
+    return False
+
+
+def held(getter, *a):
+    """the dictionary object a slot holds at the moment (None when the slot is not there)"""
+    try:
+        d = getter(*a)
+        return d if isinstance(d, dict) else None
+    except Timeout:
+        raise
+    except Exception:
+        return None
+
+
+class Presenter:
+    """How the metadata VALUES of a history's calls are handed over as Python OBJECTS.  The containers keep the
+    dictionaries they are given (by reference), so a caller decides which slots hold one and the same object:
+      fresh  every argument is a fresh deep copy (no object is passed twice);
+      share  equal values are ONE object (dictionaries and lists, at every depth: a record handed to several nodes,
+             hyperedges and the hypergraph; a nested list inside two different records; `[md] * n` lists), each with
+             probability p/100 - except the top-level dictionary of a slot that some call of the history edits in
+             place (set_attr_to_* / remove_attr_from_*, the constructor's and clear()'s in-place update of the hypergraph
+             metadata): that one is always fresh, so that "each call applies to its own node / hyperedge" stays true
+             and the value-based model / the expected content apply unchanged;
+      free   like share, also for dictionaries that are edited in place afterwards: an edit through one holder shows
+             in all holders.  Nothing is expected of the content then, it is read through the getters.
+    The choice is a function of (spec, position in the history), so a replay hands over the same objects."""
+
+    def __init__(self, spec, kind, ops):
+        spec = spec or {"mode": "fresh"}
+        self.mode = spec.get("mode", "fresh")
+        self.p = spec.get("p", 100)
+        self.salt = spec.get("salt", 0)
+        self.kind = kind
+        self.table = {}
+        self.n = 0
+        self.shared = 0
+        self.tn, self.te, self.th = set(), [], False
+        if self.mode == "share":
+            for op in ops:
+                if op[0] in ("setnattr", "delnattr"):
+                    self.tn.add(op[1])
+                elif op[0] in ("seteattr", "deleattr"):
+                    self.te.append(canon_key(kind, canon_free(kind, op[1])))
+                elif op[0] in ("sethattr", "clear"):
+                    self.th = True
+
+    def spec(self):
+        return {"mode": self.mode, "p": self.p, "salt": self.salt}
+
+    def edited_in_place(self, holder):
+        if self.mode != "share" or holder is None:
+            return False
+        if holder[0] == "n":
+            return holder[1] in self.tn
+        if holder[0] == "e":
+            return any(covers(self.kind, holder[1], t) for t in self.te)
+        return self.th or holder[0] == "ctor"
+
+    def pick(self):
+        self.n += 1
+        return zlib.crc32(("%d|%d" % (self.salt, self.n)).encode()) % 100 < self.p
+
+    def val(self, v, holder=None, top=False):
+        """the object to hand over for the value v (holder: the slot whose top-level dictionary it becomes)"""
+        if self.mode == "fresh" or v is None:
+            return copy.deepcopy(v)
+        if isinstance(v, dict):
+            out = {k: self.val(x) for k, x in v.items()}
+        elif isinstance(v, list):
+            out = [self.val(x) for x in v]
+        else:
+            return v
+        if top and (holder == ("ctor",) or self.edited_in_place(holder)):
+            return out
+        key = tsig(v)
+        if key in self.table and self.pick():
+            self.shared += 1
+            return self.table[key]
+        self.table[key] = out
+        return out
+
+    def top(self, v, holder):
+        return self.val(v, holder, top=True)
+
+    def attr(self, v, getter, *a):
+        """value for an in-place `d[field] = v`: never a structure that contains d itself (no JSON value does)"""
+        out = self.val(v)
+        if self.mode == "free":
+            d = held(getter, *a)
+            if d is not None and reaches(out, d):
+                return copy.deepcopy(v)
+        return out
+
+
+FRESH = Presenter(None, "H", [])
+
+
+def make(kind, weighted, user_hm, P=FRESH):
     from hypergraphx import Hypergraph, DirectedHypergraph, TemporalHypergraph, MultiplexHypergraph
     cls = {"H": Hypergraph, "D": DirectedHypergraph, "T": TemporalHypergraph, "M": MultiplexHypergraph}[kind]
-    return cls(**opt_kw(["new", kind, weighted], weighted=weighted, hypergraph_metadata=copy.deepcopy(user_hm)))
+    return cls(**opt_kw(["new", kind, weighted], weighted=weighted, hypergraph_metadata=P.top(user_hm, ("ctor",))))
 
 
 def py_key(kind, k):
@@ -334,16 +506,16 @@ def py_key(kind, k):
     return tuple(k[0])
 
 
-def make_ctor(kind, op):
+def make_ctor(kind, op, P=FRESH):
     """constructor with lists: op = ["ctor", weighted, hypergraph_metadata, [[node, md]..]|None, keys|None,
     weights|None, edge_metadata|None, embedded]; every argument is a fresh copy (no object is passed twice)"""
     from hypergraphx import Hypergraph, DirectedHypergraph, TemporalHypergraph, MultiplexHypergraph
     cls = {"H": Hypergraph, "D": DirectedHypergraph, "T": TemporalHypergraph, "M": MultiplexHypergraph}[kind]
     _, weighted, hm, nitems, ks, ws, mds = op[:7]
     embedded = bool(op[7]) if len(op) > 7 else False
-    kw = opt_kw(op, weighted=weighted, hypergraph_metadata=copy.deepcopy(hm))
+    kw = opt_kw(op, weighted=weighted, hypergraph_metadata=P.top(hm, ("ctor",)))
     if nitems is not None:
-        kw["node_metadata"] = {n: copy.deepcopy(md) for n, md in nitems}
+        kw["node_metadata"] = {n: P.top(md, ("n", n)) for n, md in nitems}
     if ks is not None:
         if kind in "HD":
             kw["edge_list"] = [py_key(kind, k) for k in ks]
@@ -362,31 +534,34 @@ def make_ctor(kind, op):
         if ws is not None:
             kw["weights"] = list(ws)
         if mds is not None:
-            kw["edge_metadata"] = [copy.deepcopy(m) for m in mds]
+            kw["edge_metadata"] = [P.top(m, ("e", canon_key(kind, canon_free(kind, k)))) for k, m in zip(ks, mds)]
     return cls(**kw)
 
 
-def apply_op(kind, h, op):
+def apply_op(kind, h, op, P=FRESH):
     """run one operation on the real object: 'ok' | 'rej' (any exception)"""
     if op[0] == "addedges" and op[2] is not None:
         # add_edges(weights=...) on an unweighted hypergraph prints / warns that it becomes weighted
         with contextlib.redirect_stdout(io.StringIO()), warnings.catch_warnings():
             warnings.simplefilter("ignore")
-            return apply_op_(kind, h, op)
-    return apply_op_(kind, h, op)
+            return apply_op_(kind, h, op, P)
+    return apply_op_(kind, h, op, P)
 
 
-def apply_op_(kind, h, op):
+def apply_op_(kind, h, op, P=FRESH):
     name = op[0]
+
+    def ek(k):
+        return ("e", canon_key(kind, canon_free(kind, k)))
     try:
         if name == "addnode":
             if op[2] is None and omit(op):
                 h.add_node(op[1])
             else:
-                h.add_node(op[1], copy.deepcopy(op[2]))
+                h.add_node(op[1], P.top(op[2], ("n", op[1])))
         elif name == "addedge":
             k = op[1]
-            kw = opt_kw(op, weight=op[2], metadata=copy.deepcopy(op[3]))
+            kw = opt_kw(op, weight=op[2], metadata=P.top(op[3], ek(k)))
             if kind == "H":
                 h.add_edge(tuple(k), **kw)
             elif kind == "D":
@@ -408,9 +583,9 @@ def apply_op_(kind, h, op):
         elif name == "rmnode":
             h.remove_node(op[1], keep_edges=bool(op[2]))
         elif name == "setnm":
-            h.set_node_metadata(op[1], copy.deepcopy(op[2]))
+            h.set_node_metadata(op[1], P.top(op[2], ("n", op[1])))
         elif name == "setem":
-            k, md = op[1], copy.deepcopy(op[2])
+            k, md = op[1], P.top(op[2], ek(op[1]))
             if kind == "H":
                 h.set_edge_metadata(tuple(k), md)
             elif kind == "D":
@@ -420,7 +595,7 @@ def apply_op_(kind, h, op):
             else:
                 raise NotImplementedError
         elif name == "sethm":
-            h.set_hypergraph_metadata(copy.deepcopy(op[1]))
+            h.set_hypergraph_metadata(P.top(op[1], ("h",)))
         elif name == "setw":
             k, w = op[1], op[2]
             if kind == "H":
@@ -434,16 +609,19 @@ def apply_op_(kind, h, op):
         elif name == "clear":
             h.clear()
         elif name == "setnattr":
-            h.set_attr_to_node_metadata(op[1], op[2], copy.deepcopy(op[3]))
+            h.set_attr_to_node_metadata(op[1], op[2], P.attr(op[3], lambda: (h.get_nodes(metadata=True)[op[1]] if kind == "M" else h.get_node_metadata(op[1]))))
         elif name == "delnattr":
             h.remove_attr_from_node_metadata(op[1], op[2])
         elif name == "seteattr":
-            k, f, v = op[1], op[2], copy.deepcopy(op[3])
+            k, f = op[1], op[2]
             if kind in "HD":
+                v = P.attr(op[3], lambda: h.get_edge_metadata(py_key(kind, k)))
                 h.set_attr_to_edge_metadata(py_key(kind, k), f, v)
             elif kind == "T":
+                v = P.attr(op[3], lambda: h.get_edge_metadata(tuple(k[1]), k[0]))
                 h.set_attr_to_edge_metadata(tuple(k[1]), k[0], f, v)
             else:
+                v = P.attr(op[3], lambda: h.get_edge_metadata(tuple(k[0]), k[1]))
                 h.set_attr_to_edge_metadata(tuple(k[0]), k[1], f, v)
         elif name == "deleattr":
             k, f = op[1], op[2]
@@ -454,10 +632,10 @@ def apply_op_(kind, h, op):
             else:
                 h.remove_attr_from_edge_metadata(tuple(k[0]), k[1], f)
         elif name == "sethattr":
-            h.set_attr_to_hypergraph_metadata(op[1], copy.deepcopy(op[2]))
+            h.set_attr_to_hypergraph_metadata(op[1], P.attr(op[2], lambda: h.get_hypergraph_metadata()))
         elif name == "addnodes":
             # every metadata entry is its own fresh object: sharing can only come from the implementation
-            ns, mds = op[1], (None if op[2] is None else [copy.deepcopy(m) for m in op[2]])
+            ns, mds = op[1], (None if op[2] is None else [P.top(m, ("n", n)) for n, m in zip(op[1], op[2])])
             if kind == "D":
                 h.add_nodes(list(ns))
             elif mds is None:
@@ -465,10 +643,10 @@ def apply_op_(kind, h, op):
             else:
                 d = dict(zip(ns, mds))
                 for x, md in (op[3] if len(op) > 3 else []):
-                    d.setdefault(x, copy.deepcopy(md))       # entries for nodes that are not in the list: ignored
+                    d.setdefault(x, P.top(md, ("n", x)))       # entries for nodes that are not in the list: ignored
                 h.add_nodes(list(ns), d)
         elif name == "addedges":
-            ks, ws, mds = op[1], op[2], (None if op[3] is None else [copy.deepcopy(m) for m in op[3]])
+            ks, ws, mds = op[1], op[2], (None if op[3] is None else [P.top(m, ek(k)) for k, m in zip(op[1], op[3])])
             kw = opt_kw(op, weights=ws, metadata=mds)
             if kind == "H":
                 h.add_edges([tuple(k) for k in ks], **kw)
@@ -732,10 +910,27 @@ LAYERS = ["L0", "K", "beta", "A"]
 def gen_weight(rng, weighted, kind):
     if not weighted:
         return None
+    r = rng.random()
+    if r < 0.07:
+        return rng.choice(BIG_INTS)                 # neighbouring ints that are one double
+    if r < 0.14:
+        return rng.choice(ODD_FLOATS)
     q = rng.choice([1, 2, 3, 4, 4, 5, 6, 8, 10, 12, -2, 20])
     if rng.random() < 0.5:
         return q / 4
     return rng.choice([1, 1, 2, 3, 5, -1])
+
+
+def sums_exact(ws):
+    """Python's + on these numbers, in any order, is the exact sum"""
+    if all(isinstance(w, int) for w in ws):
+        return True
+    return all(abs(w) <= 2 ** 20 and (isinstance(w, int) or on_grid(w)) for w in ws)
+
+
+def can_split(w):
+    """w = a + b computed exactly by Python's + (ints of any size; small floats on the 1/4 grid)"""
+    return isinstance(w, int) or (on_grid(w) and abs(w) <= 64)
 
 
 def gen_key(kind, nodes, rng, times=(0, 1, 2, 5), layers=LAYERS):
@@ -755,8 +950,34 @@ def gen_key(kind, nodes, rng, times=(0, 1, 2, 5), layers=LAYERS):
     return canon_key(kind, (ns, rng.choice(layers)))
 
 
-def gen_target(kind, rng):
+def gen_records(rng):
+    """a small pool of metadata records built from a smaller pool of nested parts: the same list / sub-dictionary
+    occurs inside different records, the same record at several nodes / hyperedges / the hypergraph"""
+    parts = []
+    for _ in range(rng.randint(1, 3)):
+        if rng.random() < 0.5:
+            parts.append([gen_value(rng, 2) for _ in range(rng.randint(0, 3))])
+        else:
+            parts.append({k: gen_value(rng, 2) for k in rng.sample(WORDS, rng.randint(0, 2))})
+    if rng.random() < 0.4:
+        parts.append({rng.choice(WORDS): rng.choice(parts), rng.choice(WORDS): rng.choice(parts)})   # two levels deep
+    recs = []
+    for _ in range(rng.randint(2, 4)):
+        ks = rng.sample([w for w in WORDS if w not in ("type", "weighted")], rng.randint(1, 3))
+        recs.append({k: (copy.deepcopy(rng.choice(parts)) if rng.random() < 0.6 else gen_value(rng, 2)) for k in ks})
+    if rng.random() < 0.5:
+        recs.append({})
+    return recs
+
+
+def gen_target(kind, rng, pooled=False):
     uni = gen_universe(rng)
+    recs = gen_records(rng) if pooled else None
+
+    def gen_md(p_empty):
+        if recs is not None and rng.random() < 0.85:
+            return copy.deepcopy(rng.choice(recs))
+        return gen_dict(rng, p_empty=p_empty)
     # sparse: most metadata empty and several isolated nodes (items that a metadata-less batch leaves with `{}`)
     sparse = rng.random() < 0.3
     nn = rng.randint(3, 7) if sparse else rng.randint(2, 7)
@@ -764,16 +985,18 @@ def gen_target(kind, rng):
     extra = uni[nn:]
     weighted = rng.random() < 0.5
     tgt = {"kind": kind, "weighted": weighted, "nodes": {}, "edges": {}, "extra": extra}
+    if recs is not None:
+        tgt["records"] = recs
     for n in nodes:
-        tgt["nodes"][n] = gen_dict(rng, p_empty=0.85 if sparse else 0.5)
+        tgt["nodes"][n] = gen_md(0.85 if sparse else 0.5)
     pool = nodes[:max(2, nn - rng.randint(1, 3))] if sparse else nodes
     for _ in range(rng.randint(0, 4) if sparse else rng.randint(0, 6)):
         k = gen_key(kind, pool, rng)
         if k is None or k in tgt["edges"]:
             continue
         w = gen_weight(rng, weighted, kind)
-        tgt["edges"][k] = (w, gen_dict(rng, p_empty=0.8 if sparse else 0.4))
-    tgt["user_hm"] = None if rng.random() < 0.3 else gen_dict(rng, p_empty=0.2)
+        tgt["edges"][k] = (w, gen_md(0.8 if sparse else 0.4))
+    tgt["user_hm"] = None if rng.random() < 0.3 else gen_md(0.2)
     return tgt
 
 
@@ -798,7 +1021,7 @@ def opkey(kind, k):
 
 def split_weight(w, rng):
     if isinstance(w, int):
-        a = rng.randint(-2, 4)
+        a = rng.randint(-2, 4) if (abs(w) < 2 ** 40 or rng.random() < 0.5) else w // 2 + rng.randint(-1, 1)
         return a, w - a
     a = rng.choice([rng.randint(-4, 12) / 4, rng.randint(-1, 3)])
     b = w - a
@@ -900,7 +1123,7 @@ def gen_history(tgt, rng, fancy):
             units.append([["addedge", pk(), w, pre if (pre or rng.random() < 0.5) else None]] +
                          attr_build("seteattr", "deleattr", pk, md, rng, have=pre))
             used.add("attr-build")
-        elif r < 0.5 and (weighted or rng.random() < 0.5):
+        elif r < 0.5 and ((weighted and can_split(w)) or (not weighted and rng.random() < 0.5)):
             # the hyperedge is inserted twice: weights add up (weighted), the metadata of the second call replaces the
             # first one - also when the second call passes none
             a, b = split_weight(w, rng) if weighted else (None, None)
@@ -953,13 +1176,22 @@ def gen_history(tgt, rng, fancy):
                                   ["rmnode", v, rng.randint(0, 1)]])
                     used.add("node-detour")
             elif r < 0.8:
+                # a temporary node with 1-3 incident hyperedges; remove_node takes them all away again
                 v = fresh_node()
                 if v is not None and tnodes:
-                    base = fresh_key(tnodes)
-                    if base is not None:
+                    u = []
+                    for _ in range(rng.choice([1, 2, 2, 3])):
+                        base = fresh_key(tnodes)
+                        if base is None:
+                            continue
                         x = key_with(kind, base, v, rng)
+                        if x in taken:
+                            continue
                         taken.add(x)
-                        u = [["addedge", perm_key(kind, x, rng), gen_weight(rng, weighted, kind), gen_dict(rng)]]
+                        u.append(["addedge", perm_key(kind, x, rng), gen_weight(rng, weighted, kind), gen_dict(rng)])
+                    if u:
+                        if len(u) >= 2:
+                            used.add("multi-incidence-detour")
                         if rng.random() < 0.5:
                             u.insert(0, ["addnode", v, gen_dict(rng)])
                         u.append(["rmnode", v, 0])
@@ -1004,6 +1236,16 @@ def gen_history(tgt, rng, fancy):
         u = rng.choice(tnodes)
         keep = rng.random() < 0.4
         inc = [k for k in tgt["edges"] if u in key_nodes(kind, k)]
+        if keep and weighted:
+            # shrunken hyperedges that meet an existing one (or each other) add their weights up: only where Python's +
+            # is exact (ints of any size among themselves, small numbers on the 1/4 grid)
+            groups = {}
+            for k in inc:
+                f = key_without(kind, k, u)
+                if f is not None:
+                    groups.setdefault(f, [tgt["edges"][f][0]] if (f in tgt["edges"] and f not in inc) else []).append(tgt["edges"][k][0])
+            if any(len(ws) >= 2 and not sums_exact(ws) for ws in groups.values()):
+                keep = False
         ops.append(["rmnode", u, 1 if keep else 0])
         touched = []
         if keep:
@@ -1142,13 +1384,20 @@ def gen_batched(tgt, rng):
         # (by `{}` when the batch has no metadata list)
         i = rng.randrange(len(first))
         k = first[i]
-        if weighted:
+        if weighted and not can_split(tgt["edges"][k][0]):
+            cands = [j for j, x in enumerate(first) if can_split(tgt["edges"][x][0])]
+            i = rng.choice(cands) if cands else None
+            k = first[i] if cands else None
+        if k is None:
+            a = None
+        elif weighted:
             a, b = split_weight(tgt["edges"][k][0], rng)
             ws[i] = b
         else:
             a = None
-        edge_ops.append(["addedge", perm_key(kind, k, rng), a, gen_dict(rng, p_empty=0.2)])
-        used.add("split")
+        if k is not None:
+            edge_ops.append(["addedge", perm_key(kind, k, rng), a, gen_dict(rng, p_empty=0.2)])
+            used.add("split")
     if mode == "ctor":
         if batch or rng.random() < 0.3:
             head = [["ctor", weighted, tgt["user_hm"], nitems, keys, ws if batch else None, mds if batch else None,
@@ -1213,6 +1462,14 @@ def reverse_at(v, path):
     return v[:path[0]] + [reverse_at(v[path[0]], path[1:])] + v[path[0] + 1:]
 
 
+def pick_weight_edge(t, rng):
+    """a hyperedge for a weight edit: mostly one whose weight is large / off the grid when there is one"""
+    odd = [k for k, (w, _) in t["edges"].items() if w is not None and (abs(w) >= 2 ** 24 or (isinstance(w, float) and not on_grid(w)))]
+    if odd and rng.random() < 0.6:
+        return rng.choice(odd)
+    return rng.choice(list(t["edges"]))
+
+
 def edit_target(tgt, rng):
     """one single-element edit of the content: (name, new target) or None"""
     kind = tgt["kind"]
@@ -1240,8 +1497,34 @@ def edit_target(tgt, rng):
             choices += ["weightedness", "wflag", "wflag"]
     else:
         choices += ["weightedness", "wflag"]
+    recs = t.get("records")
+    if recs:
+        # a whole record replaced by another record of the pool (which other slots may hold already)
+        choices += ["nrec", "nrec", "hrec"] + (["erec", "erec"] if t["edges"] else [])
     c = rng.choice(choices)
-    if c == "lorder":
+    if c in ("nrec", "erec", "hrec"):
+        if c == "nrec":
+            x = rng.choice(list(t["nodes"]))
+            cur = t["nodes"][x]
+        elif c == "erec":
+            x = rng.choice(list(t["edges"]))
+            cur = t["edges"][x][1]
+        else:
+            x, cur = None, (t["user_hm"] or {})
+        others = [r for r in recs if tsig(norm(r)) != tsig(norm(cur))]
+        if not others:
+            return None
+        new = copy.deepcopy(rng.choice(others))
+        if c == "nrec":
+            t["nodes"][x] = new
+        elif c == "erec":
+            t["edges"][x] = (t["edges"][x][0], new)
+        else:
+            if tsig(norm({k: v for k, v in new.items() if k not in ("weighted", "type")})) == \
+                    tsig(norm({k: v for k, v in cur.items() if k not in ("weighted", "type")})):
+                return None
+            t["user_hm"] = new
+    elif c == "lorder":
         where, x, path = rng.choice(lists)
         if where == "n":
             t["nodes"][x] = reverse_at(t["nodes"][x], path)
@@ -1279,15 +1562,22 @@ def edit_target(tgt, rng):
         w, md = t["edges"][k]
         t["edges"][k] = (w, edit_value(md, rng))
     elif c == "wval":
-        k = rng.choice(list(t["edges"]))
+        k = pick_weight_edge(t, rng)
         w, md = t["edges"][k]
-        t["edges"][k] = (w + (1 if isinstance(w, int) else 0.25), md)
+        if isinstance(w, int):
+            t["edges"][k] = (w + rng.choice([1, 1, -1, 2]), md)      # the neighbouring integer, whatever the magnitude
+        elif on_grid(w) and abs(w) < 64 and rng.random() < 0.5:
+            t["edges"][k] = (w + 0.25, md)
+        else:
+            t["edges"][k] = (neighbour(w, rng), md)                   # the neighbouring double
     elif c == "wtype":
-        k = rng.choice(list(t["edges"]))
+        k = pick_weight_edge(t, rng)
         w, md = t["edges"][k]
         if w is None:
             t["edges"][k] = (1.0, md)      # Temporal/Multiplex keep a given 1.0 also when unweighted
         elif isinstance(w, int):
+            if abs(w) >= 2 ** 1023:
+                return None
             t["edges"][k] = (float(w), md)
         elif w == int(w):
             t["edges"][k] = (int(w), md)
@@ -1360,9 +1650,11 @@ def edit_value(v, rng):
     if isinstance(v, bool):
         return rng.choice([not v, int(v)])        # True vs 1 are different JSON values
     if isinstance(v, int):
-        return rng.choice([v + 1, float(v)])      # 1 vs 1.0 too
+        return rng.choice([v + 1, float(v) if abs(v) < 2 ** 1023 else v - 1])      # 1 vs 1.0 too
     if isinstance(v, float):
-        return v + 0.25
+        if v + 0.25 != v and rng.random() < 0.6:
+            return v + 0.25
+        return neighbour(v, rng)
     return v + "x"
 
 
@@ -1399,27 +1691,119 @@ def expected_obs(tgt):
             "edges": {k: ((1 if w is None else w), md) for k, (w, md) in tgt["edges"].items()}}
 
 
+def heap_line(raw, ser):
+    """the metadata OBJECTS an exposure holds, as a heap of cells for `Model/C07Heap.lean` (one cell per dictionary /
+    list object - an object met again is the same address -, atoms by value), the addresses of the metadata slots in
+    exposure order, and what the implementation's `serialize` made of these slots: (line, expected answer)"""
+    cells, addr = [], {}
+    keep = []
+
+    def put(v, depth=0):
+        if depth > 40:
+            raise ValueError("metadata nested deeper than 40 levels (a cycle?)")
+        if isinstance(v, dict):
+            if id(v) in addr:
+                return addr[id(v)]
+            fs = []
+            for k, x in v.items():
+                if not (isinstance(k, str) and k and all(c.isalnum() and c.isascii() or c == "_" for c in k)):
+                    raise ValueError("key outside the wire alphabet: %r" % (k,))
+                fs.append("%s:%d" % (k, put(x, depth + 1)))
+            cells.append("o" + (",".join(fs) or "-"))
+        elif isinstance(v, list):
+            if id(v) in addr:
+                return addr[id(v)]
+            cells.append("l" + (",".join(str(put(x, depth + 1)) for x in v) or "-"))
+        else:
+            cells.append("a" + wire(v))
+            return len(cells) - 1
+        addr[id(v)] = len(cells) - 1
+        keep.append(v)
+        return addr[id(v)]
+    slots = [e["metadata"] for e in raw["edges"]] + [raw["hypergraph_metadata"]] + [n["metadata"] for n in raw["nodes"]]
+    sers = [e["metadata"] for e in ser["edges"]] + [ser["hypergraph_metadata"]] + [n["metadata"] for n in ser["nodes"]]
+    if len(slots) != len(sers):
+        raise ValueError("exposure and pre-image have different numbers of records")
+    refs = [put(v) for v in slots]
+    shared = len(refs) - len(set(refs))
+    return ("heap %s %s" % ("|".join(cells), ",".join(map(str, refs)) or "-"),
+            wire(slots) + " " + wire(sers), shared)
+
+
+def batch_safe(drv, lines, expect):
+    """drv.batch writes up to 256 lines before it reads: keep what is in flight well below the pipe buffers
+    (long lines: numbers of hundreds of digits, one pre-image per call of a history)"""
+    out, part, n_in, n_out = [], [], 0, 0
+    for ln, ex in zip(lines, expect):
+        size_out = len(ex[2]) + 8 if ex[0] != "ans" else 8
+        if part and (n_in + len(ln) > 16000 or n_out + size_out > 16000):
+            out += drv.batch(part)
+            part, n_in, n_out = [], 0, 0
+        part.append(ln)
+        n_in += len(ln) + 1
+        n_out += size_out
+    if part:
+        out += drv.batch(part)
+    return out
+
+
+def twin_ops(kind, obs):
+    """plain single calls (fresh objects) that build the content `obs` shows; None when it is no content of a `kind` object"""
+    try:
+        weighted = obs["weighted"] is True
+        ops = []
+        for n, md in obs["nodes"].items():
+            ops.append(["addnode", n, copy.deepcopy(md)])
+        for k, (w, md) in obs["edges"].items():
+            if not weighted and isinstance(w, int) and not isinstance(w, bool) and w == 1:
+                w = None
+            ops.append(["addedge", opkey(kind, k), w, copy.deepcopy(md)])
+        ops.append(["sethm", copy.deepcopy(obs["hmeta"])])
+        json.dumps(ops)
+        return weighted, ops
+    except Exception:
+        return None
+
+
 def run_history(ctx, drv, slot, kind, weighted, user_hm, ops, rank, lrank, case, probes):
     """returns list of probe results (dicts) - at the probe positions and at the end"""
     unrank = {v: k for k, v in rank.items()}
     unlrank = {v: k for k, v in lrank.items()}
     ctor = ops[0] if (ops and ops[0][0] == "ctor") else None
+    P = Presenter(case.get("present"), kind, ops)
+    free = P.mode == "free"          # the value-based model does not follow in-place edits of shared dictionaries
     try:
-        h = make_ctor(kind, ctor) if ctor is not None else make(kind, weighted, user_hm)
+        h = make_ctor(kind, ctor, P) if ctor is not None else make(kind, weighted, user_hm, P)
     except Timeout:
         raise
     except Exception as e:
         ctx.violation(case, "constructor raised %r" % (e,))
         return None
-    if ctor is not None:
+    if free:
+        lines = []
+        expect = []
+    elif ctor is not None:
         lines = [wire_ctor(kind, slot, ctor, rank, lrank)]
+        expect = [("ans", "ok")]
     else:
         lines = ["new %d %s %d %s" % (slot, kind, 1 if weighted else 0, wire(user_hm or {}))]
-    expect = [("ans", "ok")]
+        expect = [("ans", "ok")]
     results = []
     forks = []
+    every = isinstance(probes, str)
+    if every:
+        probes = {len(ops) // 2}
+    last = [None]
 
-    def probe(pos):
+    def prefix_case(pos):
+        # the whole history is kept (which dictionaries a `share` presentation keeps apart depends on all its calls)
+        c = dict(case)
+        c["at"] = pos
+        c.pop("expect", None)
+        c["probe_all"] = True
+        return c
+
+    def probe(pos, light=False):
         res = {"pos": pos}
         before = state_digest(h)
         try:
@@ -1439,16 +1823,17 @@ def run_history(ctx, drv, slot, kind, weighted, user_hm, ops, rank, lrank, case,
         if not (isinstance(d1, str) and len(d1) == 64):
             note_disagree(ctx, {**case, "at": pos}, "digest is not a 64-character hex string: %r" % (d1,))
         try:
-            hc = plain_hash(copy.deepcopy(h))
-            if hc != d1:
-                ctx.violation({**case, "at": pos}, "a deep copy hashes differently")
+            if not light:
+                hc = plain_hash(copy.deepcopy(h))
+                if hc != d1:
+                    ctx.violation({**case, "at": pos}, "a deep copy hashes differently")
         except Timeout:
             raise
         except Exception:
             pass
         res["digest"] = d1
         try:
-            bad = wf_real(kind, h)
+            bad = wf_real(kind, h) if not light else []
             ctx.count("wf_checked")
             if bad:
                 note_disagree(ctx, {**case, "at": pos}, "the tables of the real object violate WF (C07_wf_run): " + "; ".join(bad))
@@ -1465,16 +1850,36 @@ def run_history(ctx, drv, slot, kind, weighted, user_hm, ops, rank, lrank, case,
         except Exception as e:
             res["sig"] = None
             ctx.count("unobservable")
+        # the history step by step: the hash moves exactly when the content (as the getters show it) moves
+        prev = last[0]
+        if every and prev is not None and prev.get("sig") is not None and res["sig"] is not None:
+            ctx.count("steps_compared")
+            if prev["sig"] != res["sig"]:
+                ctx.count("steps_content_changed")
+            if (prev["sig"] == res["sig"]) != (prev["digest"] == d1):
+                ctx.violation(prefix_case(pos), "one call (%s) %s" % (
+                    ops[pos][0] if pos < len(ops) else "-",
+                    "changed the content the getters show, but the hash computed after it is the hash computed before it"
+                    if prev["sig"] != res["sig"] else
+                    "left the content the getters show as it was, but the hash computed after it differs from the one "
+                    "computed before it"))
+        last[0] = res
+        if free and res["sig"] is not None and (light is False):
+            res["twin"] = twin_ops(kind, res["obs"])
         # model lines
         n_lines = len(lines)
         try:
-            lines.append("expose %d" % slot)
-            expect.append(("expose", pos, wire(map_exposed(kind, raw, rank, lrank))))
-            lines.append("pre %d" % slot)
-            expect.append(("pre", pos, wire(map_exposed(kind, ser, rank, lrank)), d1, unrank, unlrank))
-            lines.append("content %d" % slot)
-            expect.append(("content", pos, wire(map_exposed(kind, ser, rank, lrank))))
-            if res["sig"] is not None:
+            if not free and not light:
+                lines.append("expose %d" % slot)
+                expect.append(("expose", pos, wire(map_exposed(kind, raw, rank, lrank))))
+                lines.append("pre %d" % slot)
+                expect.append(("pre", pos, wire(map_exposed(kind, ser, rank, lrank)), d1, unrank, unlrank))
+                lines.append("content %d" % slot)
+                expect.append(("content", pos, wire(map_exposed(kind, ser, rank, lrank))))
+            elif not free:
+                lines.append("pre %d" % slot)
+                expect.append(("pre", pos, wire(map_exposed(kind, ser, rank, lrank)), d1, unrank, unlrank))
+            if res["sig"] is not None and (free or not light):
                 cs = slot + 50
                 o = res["obs"]
                 lines.append("cnew %d %s %d %s" % (cs, kind, 1 if o["weighted"] else 0, wire(o["hmeta"])))
@@ -1486,7 +1891,15 @@ def run_history(ctx, drv, slot, kind, weighted, user_hm, ops, rank, lrank, case,
                     lines.append("cedge %d %s %s %s" % (cs, wire_key(kind, k, rank, lrank), wire(w), wire(md)))
                     expect.append(("ans", "ok"))
                 lines.append("canon %d" % cs)
-                expect.append(("canon", pos, wire(map_exposed(kind, ser, rank, lrank))))
+                expect.append(("canon", pos, wire(map_exposed(kind, ser, rank, lrank)), d1, unrank, unlrank))
+            if not light and P.mode != "fresh":
+                # the real object graph of the metadata slots (which slots hold one object) against the heap model
+                ln, want_heap, n_sh = heap_line(raw, ser)
+                lines.append(ln)
+                expect.append(("heap", pos, want_heap))
+                ctx.count("heaps_compared")
+                if n_sh:
+                    ctx.count("heaps_with_slots_sharing_an_object")
         except Timeout:
             raise
         except Exception as e:
@@ -1496,6 +1909,8 @@ def run_history(ctx, drv, slot, kind, weighted, user_hm, ops, rank, lrank, case,
             del expect[n_lines:]
             note_disagree(ctx, {**case, "at": pos}, "pre-image is not a JSON tree of the documented shape: %r" % (e,))
         return res
+    if every:
+        r = probe(-1, light=True)
     for i, op in enumerate(ops):
         if op[0] == "ctor":
             if i != 0:
@@ -1520,22 +1935,29 @@ def run_history(ctx, drv, slot, kind, weighted, user_hm, ops, rank, lrank, case,
             h = c
             ctx.count("forks")
             continue
-        a = apply_op(kind, h, op)
-        wl = wire_ops(kind, slot, op, rank, lrank)
+        a = apply_op(kind, h, op, P)
         if op[0] in BATCHED and a != "ok":
             note_disagree(ctx, {**case, "op": op}, "a valid batched call was rejected")
             return None
-        for ln in wl:
-            lines.append(ln)
-            expect.append(("ans", a, i, op))
-        if i in probes:
-            r = probe(i)
+        if not free:
+            for ln in wire_ops(kind, slot, op, rank, lrank):
+                lines.append(ln)
+                expect.append(("ans", a, i, op))
+        if every or i in probes:
+            r = probe(i, light=(every and i not in probes and not free))
             if r is not None:
                 results.append(r)
+            elif every:
+                return None
     r = probe(len(ops))
     if r is None:
         return None
+    r["obj"] = h
+    r["shared"] = P.shared
     results.append(r)
+    ctx.count("present:" + P.mode)
+    if P.shared:
+        ctx.count("histories_with_shared_objects")
     for orig, d0, sig0, at in forks:
         try:
             d1 = plain_hash(orig)
@@ -1550,13 +1972,13 @@ def run_history(ctx, drv, slot, kind, weighted, user_hm, ops, rank, lrank, case,
             ctx.violation({**case, "at": at}, "a hypergraph's %s changed although no method was called on it (only its "
                                               "copy() was edited)" % ("hash" if d1 != d0 else "content"))
     want = case.get("expect")
-    if want is not None and r.get("sig") is not None and r["sig"] != want:
+    if want is not None and not free and r.get("sig") is not None and r["sig"] != want:
         ctx.count("unexpected_content")
         ctx.violation(case, "the calls of this history describe one content (each call applied to its own node / "
                             "hyperedge, as documented) but the getters show another one, so it hashes differently from "
                             "every other construction of that content: " + first_diff(want, r["sig"]))
-    if drv is not None:
-        answers = drv.batch(lines)
+    if drv is not None and lines:
+        answers = batch_safe(drv, lines, expect)
         for ln, a, ex in zip(lines, answers, expect):
             if ex[0] == "ans":
                 if a != ex[1]:
@@ -1566,16 +1988,16 @@ def run_history(ctx, drv, slot, kind, weighted, user_hm, ops, rank, lrank, case,
                 what = {"expose": "expose_attributes_for_hashing() differs from the model's expose?",
                         "pre": "serialized pre-image differs from the model's preimage?",
                         "content": "serialized pre-image differs from canon(content(model tables))",
-                        "canon": "serialized pre-image differs from canon(content observed through the getters)"}[ex[0]]
+                        "canon": "serialized pre-image differs from canon(content observed through the getters)",
+                        "heap": "values / serialize() results of the metadata objects (addresses = objects, so slots that "
+                                "hold ONE object have one address) differ from the heap model (C07_serialize_by_reference)"}[ex[0]]
                 if ex[0] == "canon":
                     # the implementation's pre-image is not a function of its observable content (stale table)
                     ctx.extra.setdefault("canon_mismatch", 0)
                     ctx.extra["canon_mismatch"] += 1
-                    note_disagree(ctx, {**case, "at": ex[1], "line": ln}, what + ": model %s, implementation %s" % (a[:300], ex[2][:300]))
-                else:
-                    note_disagree(ctx, {**case, "at": ex[1], "line": ln}, what + ": model %s, implementation %s" % (a[:300], ex[2][:300]))
+                note_disagree(ctx, {**case, "at": ex[1], "line": ln}, what + ": model %s, implementation %s" % (a[:300], ex[2][:300]))
                 break
-            elif ex[0] == "pre":
+            elif ex[0] in ("pre", "canon"):
                 # end to end: real dumps + real SHA-256 of the model's tree is the real hash
                 try:
                     tree = unmap_tree(kind, unwire(a), ex[4], ex[5])
@@ -1590,32 +2012,50 @@ def run_history(ctx, drv, slot, kind, weighted, user_hm, ops, rank, lrank, case,
 
 
 def check_case(ctx, drv, case):
-    """case = {kind, weighted, user_hm, labels, histories:[ops..], edits:[{name, weighted, user_hm, ops}..]}"""
+    """case = {kind, weighted, user_hm, labels, histories:[ops..], present:[spec..], edits:[{name, weighted, user_hm, ops,
+    present}..], free:[{ops, present}..]}"""
     kind = case["kind"]
     labs = sorted(case["labels"])
     rank = {x: i for i, x in enumerate(labs)}
     lrank = {x: i for i, x in enumerate(sorted(LAYERS))}
     ends = []
+    objs = []
     signal.signal(signal.SIGALRM, _alarm)
     slot = 0
-    for hi, ops in enumerate(case["histories"]):
-        sub = {"kind": kind, "weighted": case["weighted"], "user_hm": case["user_hm"], "labels": labs, "history": ops}
-        if case.get("expect") is not None:
-            sub["expect"] = case["expect"]
-        probes = set(case.get("probes", {}).get(str(hi), []))
+    present = list(case.get("present") or [])
+    present += [None] * (len(case["histories"]) - len(present))
+
+    def go(sub, weighted, user_hm, ops, probes):
+        nonlocal slot
         signal.alarm(20)
         try:
-            res = run_history(ctx, drv, slot, kind, case["weighted"], case["user_hm"], ops, rank, lrank, sub, probes)
+            res = run_history(ctx, drv, slot, kind, weighted, user_hm, ops, rank, lrank, sub, probes)
         except Timeout:
             ctx.violation(sub, "history did not finish within 20 s")
             res = None
         finally:
             signal.alarm(0)
         slot += 1
-        if res is None:
-            ends.append(None)
-            continue
-        ends.append(res[-1])
+        if res is not None and res[-1].get("obj") is not None:
+            objs.append((res[-1]["obj"], res[-1]["digest"], sub))
+        return res
+    for hi, ops in enumerate(case["histories"]):
+        sub = {"kind": kind, "weighted": case["weighted"], "user_hm": case["user_hm"], "labels": labs, "history": ops}
+        if present[hi] is not None:
+            sub["present"] = present[hi]
+        if case.get("expect") is not None:
+            sub["expect"] = case["expect"]
+        probes = case.get("probes", {}).get(str(hi), [])
+        probes = "all" if (probes == "all" or case.get("probe_all")) else set(probes)
+        res = go(sub, case["weighted"], case["user_hm"], ops, probes)
+        ends.append(None if res is None else res[-1])
+
+    def pair_of(i, j):
+        pair = {"kind": kind, "weighted": case["weighted"], "user_hm": case["user_hm"], "labels": labs,
+                "histories": [case["histories"][i], case["histories"][j]], "present": [present[i], present[j]]}
+        if case.get("same_target"):
+            pair["same_target"] = True
+        return pair
     # equality direction: equal observed content => equal hash (and conversely)
     n_equal = 0
     for i in range(len(ends)):
@@ -1623,15 +2063,14 @@ def check_case(ctx, drv, case):
             a, b = ends[i], ends[j]
             if a is None or b is None or a["sig"] is None or b["sig"] is None:
                 continue
-            pair = {"kind": kind, "weighted": case["weighted"], "user_hm": case["user_hm"], "labels": labs,
-                    "histories": [case["histories"][i], case["histories"][j]]}
-            if case.get("same_target"):
-                pair["same_target"] = True
+            pair = pair_of(i, j)
             if a["sig"] == b["sig"]:
                 n_equal += 1
+                if a["shared"] or b["shared"]:
+                    ctx.count("pairs_equal_content_with_shared_objects")
                 if a["digest"] != b["digest"]:
                     ctx.violation(pair, "two histories end in the same content (nodes, hyperedges, weights, metadata as the "
-                                        "getters show them) but hash differently")
+                                        "getters show them) but hash differently" + sharing_note(a, b))
             elif a["digest"] == b["digest"]:
                 ctx.violation(pair, "two histories end in different contents but hash equally")
             elif case.get("same_target"):
@@ -1644,23 +2083,63 @@ def check_case(ctx, drv, case):
                               + first_diff(a["sig"], b["sig"]))
     ctx.count("pairs_equal_content", n_equal)
     ctx.count("pairs_total", len(ends) * (len(ends) - 1) // 2)
+    # histories whose dictionaries are shared freely (an in-place edit shows in every holder): the content is what the
+    # getters show; the same content built from fresh objects by plain calls must hash the same - at the end and at
+    # one earlier position
+    for fr in case.get("free", []):
+        ops, spec = fr["ops"], fr["present"]
+        sub = {"kind": kind, "weighted": case["weighted"], "user_hm": case["user_hm"], "labels": labs, "history": ops,
+               "present": spec}
+        res = go(sub, case["weighted"], case["user_hm"], ops, "all")
+        if res is None:
+            continue
+        ctx.count("free_histories")
+        stops = [r for r in res if r.get("twin") is not None and r.get("sig") is not None]
+        pick = stops[-1:]
+        mids = [r for r in stops[:-1] if r["pos"] >= 0]
+        if mids:
+            pick.append(mids[zlib.crc32(repr(ops).encode()) % len(mids)])
+        for r in pick:
+            tw_weighted, tw = r["twin"]
+            pre = ops[:r["pos"] + 1]
+            tsub = {"kind": kind, "weighted": tw_weighted, "user_hm": None, "labels": labs, "history": tw}
+            tres = go(tsub, tw_weighted, None, tw, set())
+            if tres is None or tres[-1]["sig"] is None:
+                continue
+            t = tres[-1]
+            if t["sig"] != r["sig"]:
+                ctx.count("twin_not_built")
+                continue
+            ctx.count("twins_compared")
+            if r["digest"] != t["digest"]:
+                ctx.violation({"kind": kind, "weighted": case["weighted"], "user_hm": case["user_hm"], "labels": labs,
+                               "histories": [], "free": [{"ops": pre, "present": spec}]},
+                              "a hypergraph whose metadata slots share dictionary / list objects (history `free`, "
+                              "objects handed over as its `present` says) and a hypergraph built by plain calls from fresh "
+                              "objects show the same content through the getters but hash differently")
+        ends.append(res[-1])
+    # every pair of final states of this case, whatever the construction: content partition = digest partition
+    for i in range(len(case["histories"]), len(ends)):
+        for j in range(i):
+            a, b = ends[i], ends[j]
+            if a is None or b is None or a["sig"] is None or b["sig"] is None:
+                continue
+            if (a["sig"] == b["sig"]) != (a["digest"] == b["digest"]):
+                ctx.violation({k: v for k, v in case.items() if k != "edits"},
+                              "two hypergraphs of this case: contents %s, hashes %s" % (
+                                  "equal" if a["sig"] == b["sig"] else "differ",
+                                  "equal" if a["digest"] == b["digest"] else "differ"))
     # difference direction: single-element edits
     base = ends[0] if ends else None
     edited = []
     for ed in case.get("edits", []):
         sub = {"kind": kind, "weighted": ed["weighted"], "user_hm": ed["user_hm"], "labels": labs, "history": ed["ops"],
                "edit": ed["name"]}
+        if ed.get("present") is not None:
+            sub["present"] = ed["present"]
         if ed.get("expect") is not None:
             sub["expect"] = ed["expect"]
-        signal.alarm(20)
-        try:
-            res = run_history(ctx, drv, slot, kind, ed["weighted"], ed["user_hm"], ed["ops"], rank, lrank, sub, set())
-        except Timeout:
-            ctx.violation(sub, "history did not finish within 20 s")
-            res = None
-        finally:
-            signal.alarm(0)
-        slot += 1
+        res = go(sub, ed["weighted"], ed["user_hm"], ed["ops"], set())
         if res is None or res[-1]["sig"] is None:
             continue
         e = res[-1]
@@ -1668,12 +2147,14 @@ def check_case(ctx, drv, case):
             edited.append((ed, e))
             continue
         pair = {"kind": kind, "weighted": case["weighted"], "user_hm": case["user_hm"], "labels": labs,
-                "histories": [case["histories"][0]], "edits": [ed]}
+                "histories": [case["histories"][0]], "present": [present[0]], "edits": [ed]}
         ctx.count("edit:" + ed["name"])
         if e["sig"] != base["sig"]:
             ctx.count("edits_effective")
+            if e["shared"] and base["shared"]:
+                ctx.count("edits_between_sharing_builds")
             if e["digest"] == base["digest"]:
-                ctx.violation(pair, "content edited (%s) but the hash did not change" % ed["name"])
+                ctx.violation(pair, "content edited (%s) but the hash did not change" % ed["name"] + sharing_note(base, e))
         elif e["digest"] != base["digest"]:
             ctx.violation(pair, "edit %s left the observed content equal but the hash changed" % ed["name"])
         edited.append((ed, e))
@@ -1688,7 +2169,30 @@ def check_case(ctx, drv, case):
                                   ed1["name"], ed2["name"], "equal" if a["sig"] == b["sig"] else "differ",
                                   "equal" if a["digest"] == b["digest"] else "differ"))
             ctx.count("edit_pairs")
+    # all objects of the case are still alive: hashing them again, in another order, gives the digests of before
+    # (nothing is kept between calls of hash_hypergraph)
+    for h, d, sub in list(reversed(objs)) + objs[:2]:
+        try:
+            d2 = plain_hash(h)
+        except Timeout:
+            raise
+        except Exception as e:
+            d2 = "raised %r" % (e,)
+        ctx.count("rehashed")
+        if d2 != d:
+            ctx.violation({k: v for k, v in case.items()},
+                          "hash_hypergraph of an untouched hypergraph (history %s) changed after other hypergraphs had "
+                          "been hashed: %s, before %s" % (json.dumps(sub["history"], default=repr)[:200], d2, d))
+            break
     return n_equal
+
+
+def sharing_note(a, b):
+    if a.get("shared") or b.get("shared"):
+        return " (dictionary / list objects that were handed over a second time, so that several metadata slots hold " \
+               "ONE object: %d while building the first, %d while building the second hypergraph - see `present`)" % (
+                   a.get("shared", 0), b.get("shared", 0))
+    return ""
 
 
 def gen_attr_edits(tgt, rng, n):
@@ -1753,8 +2257,34 @@ def gen_attr_edits(tgt, rng, n):
     return ops, t
 
 
+def free_edit_ops(kind, tgt, t2, rng):
+    """whole-entry setter calls (where the class has them) that turn the metadata of tgt into those of t2"""
+    ops = []
+    for n, md in t2["nodes"].items():
+        if n in tgt["nodes"] and tsig(norm(md)) != tsig(norm(tgt["nodes"][n])) and kind != "M":
+            ops.append(["setnm", n, md])
+    for k, (w, md) in t2["edges"].items():
+        if k in tgt["edges"] and tsig(norm(md)) != tsig(norm(tgt["edges"][k][1])):
+            if kind != "M":
+                ops.append(["setem", perm_key(kind, k, rng), md])
+            else:
+                ops.append(["addedge", perm_key(kind, k, rng), None, md])     # a repeated insertion replaces the metadata
+    if tsig(norm(t2["user_hm"] or {})) != tsig(norm(tgt["user_hm"] or {})):
+        ops.append(["sethm", t2["user_hm"] or {}])
+    return ops
+
+
+def gen_present(rng, share=0.5):
+    """how a history hands over its metadata values as objects"""
+    if rng.random() >= share:
+        return {"mode": "fresh"}
+    return {"mode": "share", "p": rng.choice([100, 100, 70, 40]), "salt": rng.randrange(1000)}
+
+
 def gen_case(rng, kind):
-    tgt = gen_target(kind, rng)
+    pooled = rng.random() < 0.45
+    tgt = gen_target(kind, rng, pooled=pooled)
+    share = 0.65 if pooled else 0.4
     hists, used_all, probes = [], set(), {}
     for i in range(4):
         ops, used = gen_batched(tgt, rng) if i == 3 else gen_history(tgt, rng, fancy=(i > 0))
@@ -1762,7 +2292,7 @@ def gen_case(rng, kind):
         used_all |= used
         if ops and rng.random() < 0.5:
             probes[str(i)] = [rng.randrange(len(ops))]
-    if rng.random() < 0.65:
+    if rng.random() < (0.45 if pooled else 0.65):
         # the same attribute-level edits after every construction of the content
         suffix, tgt = gen_attr_edits(tgt, rng, rng.randint(1, 5))
         hists = [h + copy.deepcopy(suffix) for h in hists]
@@ -1775,7 +2305,7 @@ def gen_case(rng, kind):
         name, t2 = e
         ops, _ = gen_history(t2, rng, fancy=False)
         ed = {"name": name, "weighted": t2["weighted"], "user_hm": t2["user_hm"], "ops": ops,
-              "expect": signature(kind, expected_obs(t2))}
+              "expect": signature(kind, expected_obs(t2)), "present": gen_present(rng, share)}
         if name == "wflag":
             ks = list(t2["edges"])
             distinct = len({tuple(key_nodes(kind, k)) for k in ks}) == len(ks)
@@ -1788,9 +2318,35 @@ def gen_case(rng, kind):
             else:
                 ed["ops"] = ops + [["sethm", t2["hm_final"]]]
         edits.append(ed)
+    # object identity: at least one construction from fresh objects and (mostly) one that shares equal values
+    present = [gen_present(rng, share) for _ in hists]
+    if rng.random() < 0.8:
+        i, j = rng.sample(range(len(hists)), 2)
+        present[i] = {"mode": "fresh"}
+        present[j] = {"mode": "share", "p": 100, "salt": 0}
+    # the hash after every single call of one history
+    if rng.random() < 0.3:
+        probes[str(rng.randrange(len(hists)))] = "all"
+    # the same calls with dictionaries shared freely (edits through one holder show in all holders; nothing expected,
+    # the content is read through the getters after every call)
+    free = []
+    if rng.random() < (0.6 if pooled else 0.25):
+        for i in rng.sample(range(len(hists)), rng.choice([1, 1, 2])):
+            tail = []
+            for _ in range(rng.randint(0, 3)):
+                e = edit_target(tgt, rng)
+                if e is not None and e[0] in ("nrec", "erec", "hrec", "nmeta", "emeta"):
+                    tail += free_edit_ops(kind, tgt, e[1], rng)
+            extra_ops, _ = gen_attr_edits(tgt, rng, rng.randint(0, 3))
+            free.append({"ops": [o for o in hists[i] if o[0] != "fork"] + interleave([tail, extra_ops], rng),
+                         "present": {"mode": "free", "p": rng.choice([100, 100, 60]), "salt": rng.randrange(1000)}})
     case = {"kind": kind, "weighted": tgt["weighted"], "user_hm": tgt["user_hm"],
             "labels": sorted(set(tgt["nodes"]) | set(tgt["extra"])), "histories": hists, "edits": edits, "probes": probes,
-            "same_target": True, "expect": signature(kind, expected_obs(tgt))}
+            "same_target": True, "expect": signature(kind, expected_obs(tgt)), "present": present, "free": free}
+    if pooled:
+        used_all.add("pooled-records")
+    if free:
+        used_all.add("free-sharing")
     nontrivial = bool(used_all & {"edge-detour", "node-detour", "node-rebuild", "clear", "shrink", "readd"}) and \
         bool(tgt["edges"]) and (any(tgt["nodes"].values()) or any(md for _, md in tgt["edges"].values()))
     return case, used_all, nontrivial
@@ -1826,6 +2382,56 @@ def alias_probes():
     return out
 
 
+def identity_probes():
+    """small fixed cases, one per class x weighted: ONE default record handed to every hyperedge and to two nodes
+    (`for e in edges: h.add_edge(e, metadata=default)`, `edge_metadata=[md] * n`), a second record with the same
+    nested list at a node and as the hypergraph metadata - built from fresh equal objects, from shared objects
+    (single calls / batch / constructor), and two contents that differ in ONE slot while all records involved also
+    occur at other slots.  (Deterministic members of the class that pooled targets + `present` sample.)"""
+    out = []
+    keys = {"H": [[1, 2], [2, 3, 4], [5]], "D": [[[1], [2]], [[2, 3], [4]], [[4], [5]]],
+            "T": [[0, [1, 2]], [1, [2, 3]], [1, [4, 5]]], "M": [[[1, 2], "A"], [[1, 2], "K"], [[3, 4, 5], "A"]]}
+    for kind in KINDS:
+        for weighted in (False, True):
+            ks = keys[kind]
+            ws = [2, 0.5, 2 ** 53 + 1] if weighted else [None] * 3
+            part = ["a", ["b", 1]]
+            x = {"name": "survey", "Z": part}
+            y = {"k1": part, "b": {"x9": 0}}
+            share = {"mode": "share", "p": 100, "salt": 0}
+            nodes = {1: x, 2: {}, 3: y, 4: x, 5: {}}
+            single = [["addnode", n, md] for n, md in nodes.items()] + \
+                     [["addedge", k, ws[i], x] for i, k in enumerate(ks)]
+            batch = [["addnodes", list(nodes), list(nodes.values())], ["addedges", ks, ws if weighted else None, [x, x, x]]]
+            ctor = [["ctor", weighted, y, [[n, md] for n, md in nodes.items()], ks, ws if weighted else None, [x, x, x], False]]
+            if kind == "D":
+                batch = [["addnode", n, md] for n, md in nodes.items()] + batch[1:]
+            tgt = {"kind": kind, "weighted": weighted, "user_hm": y, "nodes": nodes,
+                   "edges": {canon_key(kind, canon_free(kind, k)): (ws[i], x) for i, k in enumerate(ks)}}
+            # one slot differs: node 4 carries y instead of x (both records are held by other slots as well);
+            # the last hyperedge carries y instead of x
+            e1 = copy.deepcopy(tgt)
+            e1["nodes"][4] = y
+            e2 = copy.deepcopy(tgt)
+            k2 = canon_key(kind, canon_free(kind, ks[2]))
+            e2["edges"][k2] = (ws[2], y)
+            edits = []
+            for name, t in (("nrec", e1), ("erec", e2)):
+                for pres in (share, {"mode": "fresh"}):
+                    edits.append({"name": name, "weighted": weighted, "user_hm": y, "present": pres,
+                                  "ops": [["addnode", n, md] for n, md in t["nodes"].items()] +
+                                         [["addedge", opkey(kind, k), w, md] for k, (w, md) in t["edges"].items()],
+                                  "expect": signature(kind, expected_obs(t))})
+            out.append({"kind": kind, "weighted": weighted, "user_hm": y, "labels": [1, 2, 3, 4, 5, 6], "edits": edits,
+                        "histories": [single, copy.deepcopy(single), batch, ctor],
+                        "present": [share, {"mode": "fresh"}, share, share], "probes": {"0": "all"},
+                        "free": [{"ops": single + [["setnattr", 1, "k1", part], ["seteattr", ks[0], "a", None],
+                                                   ["delnattr", 4, "k1"], ["sethattr", "Z", part]],
+                                  "present": {"mode": "free", "p": 100, "salt": 0}}],
+                        "same_target": True, "expect": signature(kind, expected_obs(tgt))})
+    return out
+
+
 # past failures, replayed first on every run (found by this check on the tree without the repairs D9 / D11)
 WITNESSES = [
     {"kind": "D", "weighted": False, "user_hm": None, "labels": [1, 2, 5], "edits": [],
@@ -1842,12 +2448,28 @@ WITNESSES = [
 ]
 
 
+def limit_reports(ctx):
+    """one broken routine fails hundreds of oracles: keep the first dozen failures"""
+    if getattr(ctx, "_c07_limited", False):
+        return
+    orig = ctx.violation
+
+    def limited(case, what):
+        if len(ctx.violations) < 12:
+            orig(case, what)
+        else:
+            ctx.count("violations_not_recorded")
+    ctx.violation = limited
+    ctx._c07_limited = True
+
+
 def run(ctx):
+    limit_reports(ctx)
     drv = ctx.driver() if ctx.model_available else None
-    for w in WITNESSES + alias_probes():
+    for w in WITNESSES + alias_probes() + identity_probes():
         check_case(ctx, drv, copy.deepcopy(w))
         ctx.case("witness:" + json.dumps(w, sort_keys=True), True)
-    n = ctx.scale(450, 12000)
+    n = ctx.scale(320, 9000)
     for i in range(n):
         kind = KINDS[i % 4]
         case, used, nontrivial = gen_case(ctx.rng, kind)
@@ -1866,10 +2488,16 @@ def _tuplify_ops(ops):
 
 
 def replay(ctx, case):
+    limit_reports(ctx)
     drv = ctx.driver() if ctx.model_available else None
     c = dict(case)
     if "history" in c and "histories" not in c:
         c["histories"] = [c["history"]]
+        if c.get("present") is not None and not isinstance(c["present"], list):
+            c["present"] = [c["present"]]
+        if c.get("present") and isinstance(c["present"], list) and c["present"][0] and c["present"][0].get("mode") == "free":
+            c["free"] = [{"ops": c["history"], "present": c["present"][0]}]
+            c["histories"], c["present"] = [], []
     c["histories"] = [_tuplify_ops(h) for h in c["histories"]]
     c.setdefault("edits", [])
     check_case(ctx, drv, c)
